@@ -119,7 +119,9 @@ func c16Contexts(isString bool, sameLit func() *model.N) []holeCtx {
 		add("un"+op, func(hh *model.N) []*model.N { return pr(model.Un(op, hh)) })
 	}
 	add("if", func(hh *model.N) []*model.N { return []*model.N{model.If(hh, T("then"), T("else"))} })
-	add("while", func(hh *model.N) []*model.N { return []*model.N{model.While(hh, model.Block(T("body"), model.Break())), T("after")} })
+	add("while", func(hh *model.N) []*model.N {
+		return []*model.N{model.While(hh, model.Block(T("body"), model.Break())), T("after")}
+	})
 	add("for-cond", func(hh *model.N) []*model.N {
 		return []*model.N{model.For(nil, hh, nil, model.Block(T("body"), model.Break())), T("after")}
 	})
@@ -187,7 +189,9 @@ func C16(c *fw.Ctx) {
 		{"and-result", func(e *model.N) *model.N { return model.Grp(model.Log("&&", model.Bool(true), e)) }},
 		{"assignment-value", func(e *model.N) *model.N { return model.Grp(model.Asg("tmpw", e)) }},
 		{"appended-element", func(e *model.N) *model.N { return model.Idx(model.CallN(model.BiAppend, model.Arr(), e), model.Num(0)) }},
-		{"listed-value", func(e *model.N) *model.N { return model.Idx(model.CallN(model.BiValues, model.Obj([]string{"k"}, []*model.N{e})), model.Num(0)) }},
+		{"listed-value", func(e *model.N) *model.N {
+			return model.Idx(model.CallN(model.BiValues, model.Obj([]string{"k"}, []*model.N{e})), model.Num(0))
+		}},
 		{"closure-result", func(e *model.N) *model.N { return model.Call(model.CallN("mkc", e)) }},
 	}
 	wrap := func(base []producer, n int) []producer {
